@@ -152,12 +152,16 @@ func BandEra(start uint32, dev, v202 uint32) Era {
 
 // perturbVector returns an SPR vector relative to the OPR vector: per asset
 // equal / inside / at the edge of / outside the band in force.
-func perturbVector(t *rapid.T, opr []uint64, tol float64, allowOutside bool, info *bandInfo) []uint64 {
+func perturbVector(t *rapid.T, opr []uint64, tolBase float64, allowOutside bool, info *bandInfo) []uint64 {
 	out := append([]uint64(nil), opr...)
 	n := rapid.IntRange(0, 4).Draw(t, "nperturb")
 	for i := 0; i < n; i++ {
 		k := rapid.IntRange(0, len(out)-1).Draw(t, "passet")
 		o := float64(opr[k])
+		tol := tolBase
+		if tolBase == 0.01 && o >= 102000 {
+			tol = 0.001 // first rule set: 0.1% once the SPR value is >= 100000
+		}
 		// choose the SPR value s so that o relates to s*(1±tol) as wanted
 		var s float64
 		switch rapid.IntRange(0, 8).Draw(t, "pkind") {
@@ -230,17 +234,12 @@ func GenBandScenario(t *rapid.T, st *Stats) (*Scenario, bandInfo) {
 			case h >= w.Era.V20Dev:
 				tol = 0.10
 			}
-			allowOutside := h >= w.Era.V202 || !Open("C11/band-early-return") || !hasOPR
-			if !allowOutside {
-				st.Exclude("C11/band-early-return")
-			}
+			// Before 2.0.2 an out-of-band block also triggers the registered finding
+			// C11/band-early-return (winners unpaid, entries lost). The recorded rates — C12's
+			// projection — are still as specified (none), so the trigger is KEPT here and the
+			// model re-synchronises after such a block; it is only thinned out, not excluded.
+			allowOutside := h >= w.Era.V202 || !hasOPR || !Open("C11/band-early-return") || rapid.IntRange(0, 2).Draw(t, "keepTrigger") == 0
 			vec := perturbVector(t, vectorFor(5, w.Price), tol, allowOutside, &info)
-			if h < w.Era.V20Dev {
-				// the first rule set uses 0.1% for values >= 100000: keep perturbations within it when closed
-				if !allowOutside {
-					vec = vectorFor(5, w.Price)
-				}
-			}
 			b.SPR = w.SPRSet(25+rapid.IntRange(0, 1).Draw(t, "sprExtra"), vec)
 			if hasOPR {
 				info.Both++
